@@ -135,7 +135,26 @@ def strong_cases(draw):
             {'name': 'f', 'type': 'float'}]}
         spec = {'classes': [sc], 'order': ['SC'],
                 'doc_type': draw(st.sampled_from([['ref', 'SC'], ['list', ['ref', 'SC']]]))}
-    v = draw(gen.vspec_for(spec, spec['doc_type'], hard=False, omit_defaults=False))
+    v = None
+    if draw(st.integers(0, 6)) == 0:
+        # several objects of a class whose problems are only found at
+        # construction time (the documented permissive `_yatiml_recognize`: pass),
+        # as items directly below the document root: PyYAML finishes constructing
+        # them only after all of them have been started
+        pi = {'name': 'PI', 'kind': 'obj', 'bases': [], 'recognize': 'permissive', 'params': [
+            {'name': 'a', 'type': 'int'}, {'name': 'b', 'type': 'str'},
+            {'name': 'c', 'type': 'int', 'default': ['int', 0]}]}
+        n = draw(st.integers(2, 4))
+        objs_ = [['obj', 'PI', [['a', ['int', i]], ['b', ['str', 's%d' % i]], ['c', ['int', 1]]], None]
+                 for i in range(n)]
+        if draw(st.booleans()):
+            spec = {'classes': [pi], 'order': ['PI'], 'doc_type': ['list', ['ref', 'PI']]}
+            v = ['list', objs_]
+        else:
+            spec = {'classes': [pi], 'order': ['PI'], 'doc_type': ['dict', 'str', ['ref', 'PI']]}
+            v = ['dict', [[['str', 'k%d' % i], o] for i, o in enumerate(objs_)]]
+    if v is None:
+        v = draw(gen.vspec_for(spec, spec['doc_type'], hard=False, omit_defaults=False))
     if v is None:
         return {'kind': 'strong', 'model': spec, 'tree': None}
     ss = list(sites(v, spec))
